@@ -33,7 +33,9 @@ def scenario(args):
     cfg = sc.base_config(rng, tier)
     cfg["anyorder"] = False
     cfg["loss"] = rng.choice([0, 0, 10, 30])
-    moment = rng.choice(["gathering", "mid-check", "ready", "ready", "data"])
+    moment = rng.choice(["gathering", "mid-check", "ready", "ready", "data", "early-checks"])
+    if moment == "early-checks":
+        cfg.update(ctrlA=0, ctrlB=1, loss=0, dup=0)
     s = None
     bad, known = [], []
     creds_seen = {"A": [], "B": []}
@@ -45,7 +47,40 @@ def scenario(args):
         for ag in "AB":
             creds_seen[ag].append(get_creds(s, ag))
         steps = sc.signalling_steps(rng, cfg)
-        if moment == "gathering":
+        if moment == "early-checks":
+            # only B learns A's description: B (controlling) checks A, A can only store these early checks.  A restarts.
+            # Then A learns B's description while B still uses A's PRE-restart credentials: the stored and the new checks
+            # of B are authenticated with the old password, so they must not make A select a pair or leave CONNECTING.
+            s.op("creds A 1 B 1")
+            for c in range(1, cfg["ncomp"] + 1):
+                s.op(f"cands A 1 {c} B 1")
+            s.op(f"run {rng.choice([100, 300, 1000])}")
+            which0 = rng.choice(["restart A", "restartstream A 1"])
+            s.op(which0)
+            n_restarts += 1
+            creds_seen["A"].append(get_creds(s, "A"))
+            if rng.random() < 0.3:      # a second restart before anything else happens
+                s.op(which0)
+                n_restarts += 1
+                creds_seen["A"].append(get_creds(s, "A"))
+            n0 = len(s.events())
+            order = ["cands"] * cfg["ncomp"] + ["creds"]
+            if rng.random() < 0.5:
+                order.reverse()
+            c = 0
+            for o in order:
+                if o == "creds":
+                    s.op("creds B 1 A 1")
+                else:
+                    c += 1
+                    s.op(f"cands B 1 {c} A 1")
+                s.op(f"run {rng.choice([0, 20, 100])}")
+            s.op("run 4000")
+            for e in s.events()[n0:]:
+                if re.search(r" A state 1 \d+ (CONNECTED|READY)", e) or " A selected " in e:
+                    bad.append(("old-password-accepted", f"A restarted, its peer still uses the pre-restart credentials, yet: {e[:150]}"))
+                    break
+        elif moment == "gathering":
             pass
         elif moment == "mid-check":
             sc.deliver_signalling(s, rng, steps)
